@@ -137,6 +137,17 @@ def _reader_job(args):
         written = SL.concat(SL.concat(SL.lit(q), body), SL.lit(q)) & alpha
         q1[q] = _w(written - accq, 2)
     out["q1"] = q1
+    # G1: each public Token predicate holds exactly where the decoder method of the same class accepts
+    g1 = {}
+    for pred, dec in (("is_decimal", "decode_decimal"), ("is_non_decimal", "decode_non_decimal"), ("is_datetime", "decode_datetime"),
+                      ("is_quoted_string", "decode_quoted_string"), ("is_simple_value", "decode_simple_value")):
+        t = PE.run("Token", pred, rd.ctx)["T"]
+        a = PE.accepts(rd.method(dec))
+        g1[pred] = {"decoder": dec, "extra": _w(t - a, 2), "missing": _w(a - t, 2)}
+    tn = PE.run("Token", "is_numeric", rd.ctx)["T"]
+    both = PE.run("Token", "is_decimal", rd.ctx)["T"] | PE.run("Token", "is_non_decimal", rd.ctx)["T"]
+    g1["is_numeric"] = {"decoder": "decode_decimal or decode_non_decimal", "extra": _w(tn - both, 2), "missing": _w(both - tn, 2)}
+    out["g1"] = g1
     # WSC: the languages of the Token predicates the parser's skip helpers consult, against the grammar's tables
     want_c = SL.union([SL.startswith(o) & SL.endswith(c) for (o, c) in g.comments]) if g.comments else SL.EMPTY
     got_c = PE.run("Token", "is_comment", rd.ctx)["T"]
@@ -144,6 +155,15 @@ def _reader_job(args):
     got_s = PE.run("Token", "is_space", rd.ctx)["T"]
     out["wsc"] = {"comment_extra": _w(got_c - want_c, 2), "comment_missing": _w(want_c - got_c, 2),
                   "space_extra": _w(got_s - want_s, 2), "space_missing": _w(want_s - got_s, 2)}
+    # is_WSC returns True at least for comments and white space (its tail over several comments is not classified:
+    # lower bound of the True language, partial mode)
+    rd2 = lang.Reader(repo, gcls, dcls)
+    rd2.ctx.options["$partial"] = True
+    try:
+        low = PE.run("Token", "is_WSC", rd2.ctx)["T"]
+        out["wsc"]["is_wsc_misses"] = _w((want_c | want_s) - low, 2)
+    except PE.Unsupported as x:
+        out["wsc"]["is_wsc_error"] = str(x)
     out["visited"] = sorted(set(rd.ctx.visited))
     return out
 
@@ -367,6 +387,39 @@ def rule_lex1(repo, res, an, kinds=("decimal number", "based integer", "date/tim
     res.floor("LEX1 pairings", len(an["readers"]), 5)
 
 
+def rule_g1_lang(repo, res, an):
+    """G1: Token.is_decimal / is_non_decimal / is_datetime / is_quoted_string / is_simple_value hold exactly for the
+    texts the decoder method of the same class accepts (does not raise ValueError), and is_numeric is the union of
+    the two numeric ones -- per pairing, by language equality."""
+    for r in an["readers"]:
+        cfg = f"{r['decoder']}/{r['grammar']}"
+        for pred, d in r["g1"].items():
+            ok = not d["extra"] and not d["missing"]
+            res.oblige("G1", f"{cfg}: Token.{pred} == ({d['decoder']} accepts)", ok=ok)
+            if not ok:
+                w = d["extra"] or d["missing"]
+                res.add(Finding("G1", f"Token.{pred}", f"{cfg}: differs from {d['decoder']}",
+                                f"with {cfg}, Token.{pred}() is {'true' if d['extra'] else 'false'} for {w} while {d['decoder']} "
+                                f"{'rejects' if d['extra'] else 'accepts'} them: the public predicate and the decoder classify the "
+                                "same text differently", witness=w[0], where="pvl/token.py"))
+
+
+def rule_lookahead_lang(repo, res, an):
+    """LEX-LOOKAHEAD (language form): whenever the look-ahead character is outside the dialect's character set the
+    lexer ends the lexeme there (the text x = lexeme + next is in the yield language of the model): END directly
+    followed by binary data is returned as END, and the parser asks for nothing more."""
+    for r in an["readers"]:
+        cfg = f"{r['decoder']}/{r['grammar']}"
+        w = r["lex1"]["lookahead_not_ended"]
+        res.oblige("LEX-LOOKAHEAD", f"{cfg}: a lexeme is ended before any character outside the character set", ok=not w)
+        if w:
+            res.add(Finding("LEX-LOOKAHEAD", "lexer.lexer", f"{cfg}: lexeme not ended before a disallowed character",
+                            f"with {cfg} the lexer keeps accumulating when the next character is outside the dialect's set, e.g. "
+                            f"after {[x[:-1] for x in w]} followed by {[x[-1] for x in w]}: the end-of-lexeme decision does not test "
+                            "the look-ahead character (END directly followed by binary data raises instead of returning the label)",
+                            witness=w[0], where="pvl/lexer.py"))
+
+
 def rule_wsc_lang(repo, res, an):
     """WSC-LANG: Token.is_comment holds exactly for the texts that start with the opener and end with the closer of
     one and the same pair of grammar.comments, and Token.is_space exactly for the non-empty runs of the grammar's
@@ -384,6 +437,16 @@ def rule_wsc_lang(repo, res, an):
                                 "(opener and closer of one pair) nor white space: the parser's skip helpers discard such a "
                                 "token silently, so text that is not a comment disappears from the label", witness=w[extra][0],
                                 where="pvl/token.py"))
+            if pred == "is_space":
+                if "is_wsc_error" in w:
+                    raise AnalysisError(f"WSC-LANG: Token.is_WSC is not in the evaluator's vocabulary: {w['is_wsc_error']}")
+                ok2 = not w.get("is_wsc_misses")
+                res.oblige("WSC-LANG", f"{cfg}: Token.is_WSC is true (at least) for every comment and every white-space run", ok=ok2)
+                if not ok2:
+                    res.add(Finding("WSC-LANG", "Token.is_WSC", f"{cfg}: misses comments or white space",
+                                    f"with {cfg}, Token.is_WSC() does not return True for {w['is_wsc_misses']}: the parser's skip helpers "
+                                    "stop at such a token and it is taken for a significant token", witness=w["is_wsc_misses"][0],
+                                    where="pvl/token.py"))
             if w[missing]:
                 res.add(Finding("WSC-LANG", f"Token.{pred}", f"{cfg}: accepts less",
                                 f"with {cfg}, Token.{pred}() is false for {w[missing]}, a comment or white space of the grammar: "
